@@ -372,8 +372,99 @@ def r4(ctx):
                'registry modified only by the type list constructor, contrib registration and derive()')
 
 
+FLOAT_FMT = {'std::fixed', 'std::scientific', 'std::defaultfloat', 'std::hexfloat'}
+
+
+def is_float_insertion(fn, v):
+    if v['k'] != 'CXXOperatorCallExpr' or v.get('op') != '<<' or len(v.get('args', [])) != 2:
+        return False
+    if not (v.get('cls') or '').startswith('std::basic_ostream'):
+        return False
+    sig = v.get('sig', '')
+    par = sig[sig.find('(') + 1:sig.rfind(')')]
+    return par in ('float', 'double', 'long double')
+
+
+def float_state_change(fn, arg):
+    """which parts of the floating point format does the inserted manipulator define?"""
+    out = set()
+    for x in fn.walk(arg):
+        v = fn.nodes[x]
+        if v['k'] == 'DeclRefExpr' and v.get('qn') in FLOAT_FMT:
+            out.add('field')
+        if v['k'] == 'CallExpr':
+            cal = v.get('callee') or ''
+            if cal == 'std::setprecision':
+                out.add('prec')
+            if cal == 'std::resetiosflags' and v.get('args'):
+                # resetting all current flags (output->flags()) or floatfield clears fixed/scientific
+                k = fn.key(v['args'][0])
+                if 'flags()' in k or 'floatfield' in k:
+                    out.add('field')
+    return out
+
+
+def r5(ctx):
+    ctx.rule('C12.R5', 'on the decode path, every insertion of a floating point value into an output stream received from '
+             'the caller is preceded on every path inside the function by a definition of the float format (fixed / '
+             'scientific / resetiosflags of all flags) and of the precision (setprecision), with no call in between that '
+             'receives the stream; otherwise a sticky "fixed" or precision left by an earlier field changes the text',
+             minimum=4, star=True)
+    fb = ctx.fb
+    reach = decode_path_functions(fb)
+    n = 0
+    for fn in fb.functions:
+        if fn.name not in reach or not fn.blocks or '/lib/ebus/' not in fn.file:
+            continue
+        for sp in [p for p in fn.params if 'ostream' in p.get('t', '')]:
+            pname = sp['name']
+            ins = [nid for nid, v in sorted(fn.nodes.items()) if is_float_insertion(fn, v) and
+                   fn.key(stream_root(fn, nid)) in (pname, '*' + pname)]
+            if not ins:
+                continue
+            ctx.touch(fn)
+            bad = {}
+            good = set()
+
+            def on_elem(user, e, path, fn=fn, pname=pname, bad=bad, good=good):
+                v = fn.nodes[e]
+                k = v['k']
+                if k == 'CXXOperatorCallExpr' and v.get('op') == '<<' and len(v.get('args', [])) == 2:
+                    root = stream_root(fn, e)
+                    if fn.key(root) in (pname, '*' + pname):
+                        ch = float_state_change(fn, v['args'][1])
+                        if ch:
+                            return frozenset(set(user) | ch)
+                        if is_float_insertion(fn, v):
+                            if {'field', 'prec'} <= set(user):
+                                good.add(e)
+                            else:
+                                bad.setdefault(e, (sorted({'field', 'prec'} - set(user)), path))
+                        return user
+                if k in ('CallExpr', 'CXXMemberCallExpr', 'CXXConstructExpr') and v.get('args') is not None:
+                    for a in v['args']:
+                        if fn.key(a) in (pname, '*' + pname):
+                            return frozenset()
+                return user
+
+            ex = Explorer(fn, on_elem=on_elem)
+            ex.run(fn.entry, 0, frozenset())
+            for i in ins:
+                n += 1
+                construct = 'insert floating value %s into %s' % (fn.key(fn.nodes[i]['args'][1]), pname)
+                if i in bad:
+                    what = {'field': 'float format (fixed/scientific/reset)', 'prec': 'precision'}
+                    ctx.ob('C12.R5', fn, i, False, construct, 'inherited from earlier output: ' +
+                           ', '.join(what[m] for m in bad[i][0]), witness=ex.describe_path(bad[i][1]))
+                elif i in good:
+                    ctx.ob('C12.R5', fn, i, True, construct, 'float format and precision defined on all paths')
+    if n < 4:
+        raise AnalysisBroken('C12.R5: only %d floating point insertions on the decode path (confirmed: >= 4)' % n)
+
+
 def run(ctx):
     errno_rule(ctx, 'C12.R1')
     r2(ctx)
     r3(ctx)
     r4(ctx)
+    r5(ctx)
